@@ -109,7 +109,7 @@ func abstractOps(base string, ops []FSOp) []any {
 
 type fsStats struct {
 	Protocol                                                                        []M // recorded runs abstracted for the protocol-conformance check (GoitFSTrace)
-	CrashPoints, FaultPoints, Unreached, KillChecked, KillMismatch, Commands, Drift int
+	CrashPoints, FaultPoints, Unreached, KillChecked, KillMismatch, Commands, Drift, Retries int
 	ByCmd                                                                           map[string]int
 	Samples                                                                         []any
 }
@@ -243,6 +243,19 @@ func fsEnumerate(goit string, c *Chunk, evs []M, contents map[string][]byte, tz 
 				stats.ByCmd[name]++
 				if len(stats.Samples) < 4 {
 					stats.Samples = append(stats.Samples, M{"command": describeEv(ev), "crash_after_op": k, "of": len(mods), "last_op": last.Kind + " " + fileClass(base, last.Path), "next_op": next.Kind + " " + fileClass(base, next.Path)})
+				}
+				// the command is given again on the crash state (what a user does after an interruption)
+				{
+					rx := cr.RunGoit(argv...)
+					rs := c.T.Project(cr.Root, cr.Home)
+					robs := cr.Observe(roObs, rs, nil)
+					rl := emit(M{"kind": "state", "st": rs, "obs": robs, "trace": label})
+					rstep := M{"kind": "step", "cls": "fs", "ev": "retry", "cmd": cmdEv, "argv": av, "prel": kl, "postl": rl,
+						"k": k, "nops": len(mods), "last": opInfo(base, last), "next": opInfo(base, next), "res": rx.Res, "exit": rx.Exit, "trace": label, "cmdres": x.Res}
+					rsl := emit(rstep)
+					ref.Events = append(ref.Events, M{"ev": "retry", "at": ei, "k": k})
+					ref.StepLine = append(ref.StepLine, rsl)
+					stats.Retries++
 				}
 				// cross-check on a sample: really kill the process at the next operation
 				if mode.KillSample > 0 && rng.Intn(100) < mode.KillSample && next.Syscall != "" {
